@@ -5,13 +5,13 @@
 set -e
 cd "$(dirname "$0")"
 export PIP_NO_INDEX=1
-if [ -x .venv/bin/python ] && .venv/bin/python -c "import z3, cvc5, deal, jsonschema, numpy" 2>/dev/null; then
+if [ -x .venv/bin/python ] && .venv/bin/python -c "import z3, cvc5, deal, jsonschema, numpy, mpmath" 2>/dev/null; then
     echo "setup: .venv already usable"
     exit 0
 fi
 rm -rf .venv
 /venv/bin/python -m venv .venv
-.venv/bin/pip install -q --no-index --find-links /opt/veriftools/wheels z3-solver cvc5 deal icontract jsonschema
+.venv/bin/pip install -q --no-index --find-links /opt/veriftools/wheels z3-solver cvc5 deal icontract jsonschema mpmath
 echo "import site; site.addsitedir('/venv/lib/python3.12/site-packages')" \
     > .venv/lib/python3.12/site-packages/repo_overlay.pth
 .venv/bin/python -c "import z3, cvc5, deal, jsonschema, numpy, scipy; print('setup: ok', z3.get_version_string())"
